@@ -142,7 +142,7 @@ func splitSubscribeRequest(sctx *subContext, req *gnmi.SubscribeRequest) error {
 	sctx.treqs = make(map[string]*gnmi.SubscribeRequest)
 
 	subs := req.GetSubscribe()
-	prefixTarget := subs.Prefix.Target // fallback target for a single-target request
+	prefixTarget := subs.GetPrefix().GetTarget() // fallback target for a single-target request
 
 	// If the prefix names a target, it is assumed this is a single-target request and the original request
 	// becomes the request for that target.
@@ -190,8 +190,8 @@ func splitSubscribeRequest(sctx *subContext, req *gnmi.SubscribeRequest) error {
 
 func copyPrefix(prefix *gnmi.Path, target string) *gnmi.Path {
 	return &gnmi.Path{
-		Origin: prefix.Origin,
-		Elem:   prefix.Elem,
+		Origin: prefix.GetOrigin(),
+		Elem:   prefix.GetElem(),
 		Target: target,
 	}
 }
